@@ -266,6 +266,18 @@ pub fn combined(req: &Value) -> Value {
     json!({"parts": parts, "built": built})
 }
 
+/// `PackageType` deserialised from a string value of the serde data model (the variant identifier as a str)
+#[cfg(all(feature = "pt", feature = "sd"))]
+pub fn ptype_de(req: &Value) -> Value {
+    use serde::de::value::{Error as VErr, StrDeserializer};
+    use serde::Deserialize;
+    let s = unhex(&req["s"]);
+    match purl::PackageType::deserialize(StrDeserializer::<VErr>::new(&s)) {
+        Ok(t) => json!({"ok": {"name": hx(t.name())}}),
+        Err(e) => json!({"err": e.to_string()}),
+    }
+}
+
 #[cfg(feature = "pt")]
 pub fn ptype(req: &Value) -> Value {
     use std::str::FromStr;
